@@ -146,8 +146,8 @@ func assignTags(t *rapid.T, td *gen.TD, odds int) {
 			if (isInline(f) || numKind == "dur" || numKind == "iface") && o > 1 {
 				o = 1 // every second inline collection, duration and interface{} field
 			}
-			if numKind == "iface" && open("N-C04-2") {
-				continue // class of N-C04-2: tags of an interface{} field are not applied to values from the configuration
+			if numKind == "iface" && open("D61") {
+				continue // class of D61: tags of an interface{} field are not applied to values from the configuration
 			}
 			if rapid.IntRange(0, o).Draw(t, "hasv") != 0 {
 				continue
